@@ -117,6 +117,22 @@ class World:
             pass
         return False
 
+    def running(self):
+        """context manager that only installs/uninstalls the loop as the running loop
+        (does not close it on exit)"""
+        import contextlib
+
+        @contextlib.contextmanager
+        def cm():
+            asyncio.events._set_running_loop(self.loop)
+            self.loop._thread_id = threading.get_ident()
+            try:
+                yield self
+            finally:
+                asyncio.events._set_running_loop(None)
+                self.loop._thread_id = None
+        return cm()
+
     # -- the ready queue -------------------------------------------------------
     def ready_handles(self):
         """handles in the order they would run (does not disturb the queue)"""
